@@ -172,7 +172,8 @@ Section Check.
   Definition dst_b (q : queries) : bool :=
     forallb (fun rm => match expected_idx (fst (fst rm)) (s_columns S), snd rm with
                        | Some ref, Some m => dst_one_b ref (snd (fst rm)) m
-                       | _, _ => true
+                       | Some _, None => false       (* a reachable reference column, but the call raised *)
+                       | None, _ => true
                        end) (combine (q_dst q) (s_dst S)).
 
   (* ---- paps ----------------------------------------------------------------- *)
@@ -186,7 +187,8 @@ Section Check.
   Definition paps_b (q : queries) : bool :=
     forallb (fun rm => match expected_idx (fst (fst rm)) (s_columns S), snd rm with
                        | Some ref, Some p => paps_one_b ref (snd (fst rm)) p
-                       | _, _ => true
+                       | Some _, None => false
+                       | None, _ => true
                        end) (combine (q_paps q) (s_paps S)).
   End WithIdx.
 
